@@ -27,7 +27,7 @@ BOUND = {
     "thorough": "all subsets of size <=3 of the full grid; all subsets of size 4 of the core grid; x 3 default languages",
 }
 # as-built additions to the bound (kept next to BOUND so that the evidence reports them)
-BOUND = {k: v + "; plus: " + 'both column orders; case-variant language tags; label-less choices; keyword-bearing element names; 8 delimiter spellings with optional spaces' for k, v in BOUND.items()}
+BOUND = {k: v + "; plus: " + 'other row kinds and two-list forms of C07 with a text-for-its-own-cell oracle; both column orders; case-variant language tags; label-less choices; keyword-bearing element names; 8 delimiter spellings with optional spaces' for k, v in BOUND.items()}
 
 blocks = C07.blocks
 
@@ -45,7 +45,93 @@ def required_outcomes(tier):
     return {"ok"}
 
 
+def check_free(case):
+    """forms outside the grid: what is shown for an (element, kind, language) is the text written for exactly that cell -
+    a placeholder or nothing where no text was written, never another cell's text"""
+    f = case["free"]
+    wb = C07.build_free(case)
+    out = run_convert(wb)
+    ntr = len(wb["survey"]) + len(wb["choices"])
+    if out.kind != "ok":
+        return {"outcome": out.kind, "nt": False, "viol": [], "tr": ntr}
+    obs = O.Obs(out.xform)
+    itx = {}
+    for lang, d, texts in obs.itext:
+        tab = itx.setdefault(lang, {})
+        for tid, vals in texts:
+            tab[tid] = {form: el for form, el in vals}
+    viol = []
+
+    def shown(tid, L, form=None):
+        e = itx.get(L, {}).get(tid, {}).get(form)
+        return None if e is None else grid.render_value(e)
+
+    if f["k"] == "lists":
+        insts = {i: el for i, _, el in obs.secondary_instances()}
+        for ln, states in (("c", f["c"]), ("d", f["d"])):
+            inst = insts.get(ln)
+            items = inst.find(O.X + "root").findall(O.X + "item") if inst is not None else []
+            if len(items) != len(states):
+                viol.append((f"free-lists:item-count:{ln}", f"{len(items)} != {len(states)}"))
+                continue
+            for i, (it, stt) in enumerate(zip(items, states)):
+                iid = it.find(O.X + "itextId")
+                for L in ("en", "fr"):
+                    want = f"{ln}{i}.{L}" if (stt == "tr" or (stt == "en" and L == "en")) else None
+                    if iid is None:
+                        lab = it.find(O.X + "label")
+                        got = lab.text if lab is not None else None
+                    else:
+                        got = shown(iid.text, L)
+                    ok = got == want if want is not None else got in (None, "-", "")
+                    if not ok:
+                        viol.append((f"free-lists:shown:{'placeholder-over-text' if got == '-' else 'other-text' if got else 'absent'}:{ln}:{stt}",
+                                     f"choice {ln}{i} [{L}]: shown {got!r} want {want!r} lists c={f['c']} d={f['d']} order={f['order']}"))
+        return {"outcome": "ok", "nt": not viol, "viol": viol[:3], "tr": ntr}
+    # one row of another kind: messages (bind) and label / hint (control, if the row has one)
+    cells = {(c, l) for c, l in f["cells"]}
+    langs = {l for _, l in cells if l} | ({"en", "fr"} if f["extra"] else set())
+    sfx = lambda c: " ${inner}" if (case["ref"] and c in ("label", "hint", "constraint_message", "required_message")) else ""  # noqa: E731
+    b = obs.bind_map().get("/data/k", [None])[0]
+    ctrl = next((el for el, tag, ref, anc in obs.body_controls() if ref == "/data/k" or (tag == "repeat" and False)), None)
+    for c, attr in (("constraint_message", O.J + "constraintMsg"), ("required_message", O.J + "requiredMsg")):
+        if not any(cc == c for cc, _ in cells):
+            continue
+        v = b.get(attr) if b is not None else None
+        tid = O.itext_id(v)
+        for L in (langs or {None}):
+            want = f"k.{c}.{L}{sfx(c)}" if (c, L) in cells else None
+            if tid is None:
+                got = v
+                if (c, "") in cells and not langs:
+                    want = f"k.{c}.0{sfx(c)}"
+                elif want is None:
+                    continue
+            else:
+                got = shown(tid, L)
+            if want is not None and got != want:
+                viol.append((f"free-row:message-shown:{f['rk']}:{c}", f"[{L}] shown {got!r} want {want!r} cells={sorted(cells)}"))
+            elif want is None and got not in (None, "-") and not (got == f"k.{c}.0{sfx(c)}"):
+                viol.append((f"free-row:message-other-text:{f['rk']}:{c}", f"[{L}] shown {got!r}, nothing written for it; cells={sorted(cells)}"))
+    if ctrl is not None:
+        for c, tagname in (("label", "label"), ("hint", "hint")):
+            el = ctrl.find(O.X + tagname)
+            if el is None:
+                continue
+            tid = O.itext_id(el.get("ref"))
+            for L in (langs or {None}):
+                want = f"k.{c}.{L}{sfx(c)}" if (c, L) in cells else None
+                got = shown(tid, L) if tid is not None else grid.render_value(el)
+                if want is not None and tid is not None and got != want:
+                    viol.append((f"free-row:{c}-shown:{f['rk']}", f"[{L}] shown {got!r} want {want!r} cells={sorted(cells)}"))
+                elif want is None and tid is not None and got not in (None, "-") and got != f"k.{c}.0{sfx(c)}":
+                    viol.append((f"free-row:{c}-other-text:{f['rk']}", f"[{L}] shown {got!r}, nothing written for it; cells={sorted(cells)}"))
+    return {"outcome": "ok", "nt": bool(cells) and not viol, "viol": viol[:3], "tr": ntr}
+
+
 def check_one(case):
+    if case.get("free"):
+        return check_free(case)
     cells = [tuple(c) for c in case["cells"]]
     if case.get("napp") is not None or case.get("search") or case.get("osm"):
         return {"outcome": "ok", "nt": False, "viol": [], "tr": 1}  # C07's sub-space, no shown() model for it
